@@ -211,8 +211,17 @@ func cmdRun(args []string) int {
 		go func() {
 			defer wg.Done()
 			for j := range jobs {
-				w, err := c.runBatch(envBase, j.from, j.to)
-				results <- done{w, j.from, err}
+				// a worker stops after a run in which tasks had to be torn
+				// down (its process may be left in a half-way state); the
+				// rest of the batch goes to a fresh process
+				for from := j.from; from < j.to; {
+					w, err := c.runBatch(envBase, from, j.to)
+					results <- done{w, j.from, err}
+					if err != nil || !w.StoppedEarly || w.NextRun <= from {
+						break
+					}
+					from = w.NextRun
+				}
 			}
 		}()
 	}
@@ -233,9 +242,11 @@ func cmdRun(args []string) int {
 	}()
 	agg := newAggregate(*prop, *tier, *seed)
 	var found []foundItem
-	baseDigests := map[int][]uint64{} // batch start -> digests
+	baseDig := map[int]uint64{} // run -> outcome digest in the base environment, forward order
+	batchEnds := map[int]int{}  // batch start -> end, for the batches that ran
 	var firstBatch *WorkerOut
 	infra := 0
+	dropped := 0
 	for d := range results {
 		if d.err != nil {
 			fmt.Fprintln(os.Stderr, "vsim:", d.err)
@@ -243,83 +254,94 @@ func cmdRun(args []string) int {
 			continue
 		}
 		agg.add(d.w)
-		if d.from == 0 {
+		dropped += d.w.DroppedFound
+		if d.w.From == 0 && !d.w.StoppedEarly {
 			firstBatch = d.w
 		}
-		if *prop == "C17" && len(baseDigests) < plan.cross {
-			baseDigests[d.from] = d.w.Digests
+		if d.w.To > batchEnds[d.from] {
+			batchEnds[d.from] = d.w.To
+		}
+		if *prop == "C17" {
+			for i, dg := range d.w.Digests {
+				if dg != 0 {
+					baseDig[d.w.From+i] = dg
+				}
+			}
 		}
 		for _, fv := range d.w.Found {
 			found = append(found, foundItem{fv, d.from})
 		}
 	}
 	if infra > 0 {
-		fmt.Println("vsim: worker failure(s): this is trouble with the machinery or the build, not a verdict")
-		return 2
+		// what the other workers found is still triaged; without any
+		// confirmed violation the run ends with exit 2 (see below)
+		fmt.Println("vsim: worker failure(s): trouble with the machinery or the build (or a crash of the code under test that the simulator could not contain); not a verdict by itself")
+	}
+	if dropped > 0 {
+		fmt.Printf("vsim: NOTE: %d violating runs were not forwarded by workers that had already kept 400\n", dropped)
 	}
 	searchS := time.Since(start).Seconds()
 
-	// ---- C17: the same batches in other environments ----
+	// ---- C17: every batch again in another environment, runs in reverse order ----
 	if *prop == "C17" {
 		var starts []int
-		for f := range baseDigests {
+		for f := range batchEnds {
 			starts = append(starts, f)
 		}
 		sort.Ints(starts)
 		if len(starts) > plan.cross {
 			starts = starts[:plan.cross]
 		}
-		type cj struct {
-			from int
-			env  envVariant
-		}
-		var cjs []cj
-		for k, f := range starts {
-			// one re-run per compared batch: another environment AND the runs
-			// in reverse order (a result that depends on the calls made
-			// earlier in the process shows as well as one that depends on
-			// GOMAXPROCS, GOGC, the map hash seed or the heap layout)
-			cjs = append(cjs, cj{f, envVariants[k%len(envVariants)]})
-		}
 		var mu sync.Mutex
 		sem := make(chan struct{}, *workers)
 		var cwg sync.WaitGroup
-		for _, j := range cjs {
-			j := j
+		for k, f := range starts {
+			f, ev := f, envVariants[k%len(envVariants)]
+			to := batchEnds[f]
 			cwg.Add(1)
 			sem <- struct{}{}
 			go func() {
 				defer cwg.Done()
 				defer func() { <-sem }()
-				to := j.from + len(baseDigests[j.from])
-				w, err := c.runBatch(j.env, j.from, to, "-reverse")
-				mu.Lock()
-				defer mu.Unlock()
-				if err != nil {
-					fmt.Fprintln(os.Stderr, "vsim:", err)
-					infra++
-					return
-				}
-				agg.crossRuns += w.Runs
-				agg.fired["env:"+j.env.name] += int64(w.Runs)
-				agg.fired["reverse-run-order"] += int64(w.Runs)
-				base := baseDigests[j.from]
-				for i := range base {
-					if i < len(w.Digests) && w.Digests[i] != base[i] {
-						s, _ := genScript("C17", *seed, j.from+i, *tier == "thorough")
+				// one re-run per batch: another environment AND the runs in
+				// reverse order (a result that depends on the calls made
+				// earlier in the process shows as well as one that depends on
+				// GOMAXPROCS, GOGC, the map hash seed or the heap layout)
+				for hi := to; hi > f; {
+					w, err := c.runBatch(ev, f, hi, "-reverse")
+					mu.Lock()
+					if err != nil {
+						fmt.Fprintln(os.Stderr, "vsim:", err)
+						infra++
+						mu.Unlock()
+						return
+					}
+					agg.crossRuns += w.Runs
+					agg.fired["env:"+ev.name] += int64(w.Runs)
+					agg.fired["reverse-run-order"] += int64(w.Runs)
+					for i, dg := range w.Digests {
+						run := f + i
+						base, ok := baseDig[run]
+						if !ok || dg == 0 || base == 0 || dg == base {
+							continue
+						}
+						s, _ := genScript("C17", *seed, run, *tier == "thorough")
 						found = append(found, foundItem{FoundViolation{Script: s,
-							Cross: &CrossReplay{Seed: *seed, From: j.from, To: to, Run: j.from + i, Tier: *tier, EnvB: j.env.name, ReverseB: true},
-							Violations: []Violation{{Class: "cross-process", Symptom: "differs-across-processes", Pert: j.env.name + " reverse-order",
-								OpKind: s.Tasks[0][0].K, Detail: fmt.Sprintf("outcome digest %x in a process under %s running the batch forwards but %x under %s running it backwards", base[i], envBase.name, w.Digests[i], j.env.name)}}}, j.from})
+							Cross: &CrossReplay{Seed: *seed, From: f, To: to, Run: run, Tier: *tier, EnvB: ev.name, ReverseB: true},
+							Violations: []Violation{{Class: "cross-process", Symptom: "differs-across-processes", Pert: ev.name + " reverse-order",
+								OpKind: s.Tasks[0][0].K, Detail: fmt.Sprintf("outcome digest %x in a process under %s running the batch forwards but %x under %s running it backwards", base, envBase.name, dg, ev.name)}}}, f})
 						break
 					}
+					stopped, next := w.StoppedEarly, w.NextRun
+					mu.Unlock()
+					if !stopped || next+1 >= hi {
+						break
+					}
+					hi = next + 1
 				}
 			}()
 		}
 		cwg.Wait()
-		if infra > 0 {
-			return 2
-		}
 	}
 
 	// ---- replay proof on a sample: the first batch again, in another process
@@ -376,16 +398,17 @@ func cmdRun(args []string) int {
 	}
 	skipped := 0
 	unreproduced := 0
+	failedTriage := map[string]int{}
 	for _, it := range found {
 		vs := append([]Violation{}, it.fv.Violations...)
 		sort.SliceStable(vs, func(i, j int) bool { return classPriority(&vs[i]) < classPriority(&vs[j]) })
 		for _, v := range vs {
 			roughKey := findingKey(*prop, &v)
-			if seenKey["rough:"+roughKey] {
+			if seenKey["rough:"+roughKey] || failedTriage[roughKey] >= 3 {
 				continue
 			}
-			seenKey["rough:"+roughKey] = true
 			if e := kf.match(*prop, roughKey); e != nil && e.Status == "known" {
+				seenKey["rough:"+roughKey] = true
 				known(e, roughKey, "")
 				continue
 			}
@@ -399,6 +422,9 @@ func cmdRun(args []string) int {
 			}
 			rep := c.triage(it, v, minS)
 			if rep.Infra != "" {
+				// another run with the same key may still reproduce: the key
+				// is only retired after a successful triage (or three failures)
+				failedTriage[roughKey]++
 				fmt.Printf("HARNESS-NONDETERMINISM seed=%d run=%d: %s\n", *seed, it.fv.Script.Run, rep.Infra)
 				unreproduced++
 				if it.fv.RaceLog != "" {
@@ -408,6 +434,7 @@ func cmdRun(args []string) int {
 				os.WriteFile(filepath.Join(*replays, fmt.Sprintf("unreproduced-%s-%d-%d.json", *prop, *seed, it.fv.Script.Run)), dump, 0o644)
 				continue
 			}
+			seenKey["rough:"+roughKey] = true
 			if seenKey[rep.Key] {
 				continue
 			}
@@ -428,6 +455,9 @@ func cmdRun(args []string) int {
 				exit = 1
 			}
 		}
+	}
+	if infra > 0 && exit == 0 {
+		exit = 2
 	}
 	if unreproduced > 0 && exit == 0 {
 		// something was seen that could not be replayed: that is trouble with
@@ -745,7 +775,7 @@ func (c *coord) crossReproduces(cr *CrossReplay, want *Violation) *Violation {
 			return nil
 		}
 		i := cr.Run - cr.From
-		if i < 0 || i >= len(a.Digests) || i >= len(b.Digests) || a.Digests[i] == b.Digests[i] {
+		if i < 0 || i >= len(a.Digests) || i >= len(b.Digests) || a.Digests[i] == b.Digests[i] || a.Digests[i] == 0 || b.Digests[i] == 0 {
 			continue
 		}
 		v := *want
